@@ -75,6 +75,10 @@ def templates(tier="quick"):
     st = [Stmt("q%d" % i, ex=["s"] if i % 2 else ["t"], prints=P(k, "q%d" % i)) for i, k in enumerate(kinds[4:])]
     st.append(Stmt("link", ex=[s.id for s in st], prints=P("nonl", "link")))
     add("parallel_b", Variant("v0", st), faults=[{"q0": {"code": 9}}, {"q4": {"code": 4}}])
+    # a statement that cannot be started (its response file's directory is a file) while others run
+    st = [Stmt("a", ex=["s"], prints=P("line", "a")), Stmt("b", ex=["t"], rsp=("blocker/b.rsp", "x"), prints=P("line", "b")),
+          Stmt("c", ex=["t"], prints=P("multi", "c")), Stmt("top", ex=["a", "b", "c"], prints=P("line", "top"))]
+    add("start_fails", Variant("v0", st), js=(1, 3), files={"blocker": "a file, not a directory\n"})
     # statements with deps whose failing tool leaves an unparsable depfile behind (exit code 3, output)
     st = [Stmt("o1", ex=["s"], hidden=["h"], deps="gcc", prints=P("line", "o1")), Stmt("o2", ex=["t"], hidden=["h"], depfile=True, prints=P("multi", "o2")),
           Stmt("link", ex=["o1", "o2"], prints=P("line", "link"))]
